@@ -251,7 +251,22 @@ def mode_tasksigs(req):
     tasks = {}
     for t in s.tasks:
         tasks[t.name.rsplit("::", 1)[-1]] = {"sig": t.signature, "path": str(getattr(t, "path", None))}
-    return {"exit": int(s.exit_code), "tasks": tasks}
+    res = {"exit": int(s.exit_code), "tasks": tasks}
+    if req.get("pynodes"):      # identity of every PythonNode among the dependencies / products: (module file, function, argument, tree path)
+        from _pytask.nodes import PythonNode
+        from _pytask.tree_util import tree_leaves
+        nodes = []
+        for t in s.tasks:
+            for side, tree in (("dep", t.depends_on), ("prod", t.produces)):
+                for arg, sub in tree.items():
+                    for leaf in tree_leaves(sub):
+                        if isinstance(leaf, PythonNode):
+                            ni = leaf.node_info
+                            nodes.append({"dir": os.path.relpath(Path(t.path).parent, req["cwd"]) if getattr(t, "path", None) else "", "module": Path(t.path).name if getattr(t, "path", None) else None, "func": t.base_name if hasattr(t, "base_name") else t.name,
+                                          "side": side, "arg": arg, "tp": [str(x) for x in (ni.path if ni else ())], "hash": bool(leaf.hash), "has_info": ni is not None,
+                                          "sig": leaf.signature})
+        res["pynodes"] = nodes
+    return res
 
 
 def mode_build(req):
@@ -259,10 +274,12 @@ def mode_build(req):
     root = Path(req["root"])
     os.chdir(req.get("cwd", root))
     s = pytask.build(paths=[Path(p) for p in req["paths"]] if req.get("paths") else [root])
-    outcomes = {}
+    outcomes, by_module = {}, {}
     for r in s.execution_reports:
         outcomes[r.task.name.rsplit("::", 1)[-1]] = r.outcome.name
-    return {"exit": int(s.exit_code), "outcomes": outcomes}
+        mod = os.path.relpath(r.task.path, root) if getattr(r.task, "path", None) else "-"
+        by_module[mod + "::" + r.task.name.rsplit("::", 1)[-1]] = r.outcome.name
+    return {"exit": int(s.exit_code), "outcomes": outcomes, "by_module": by_module}
 
 
 def main():
